@@ -1,4 +1,4 @@
-"""C01 -- rename preserves the program (structural clauses R01.1-R01.16)."""
+"""C01 -- rename preserves the program (structural clauses R01.1-R01.17)."""
 from __future__ import annotations
 
 import ast
@@ -20,6 +20,7 @@ EXPLANATION = (
     "watermark and keeps the tail.  R01.6: a module rename appends '.py' exactly for files.  R01.7: name tables merged from several sources give the winner the language prescribes (last star import, first base class).  R01.8: an absolute module name is searched on the source folders and the python path before the importer's own folder.  R01.9 (=R15.7): target-name collectors never bind the object of an attribute/subscript target.  Alpha-equivalence of the rewritten program is a runtime fact and is not decided."
     ' R01.11: `__init__` is answered as the function a call runs only when the called object is a class (an instance runs `__call__`).'
 )
+EXPLANATION += ' R01.17 (=R02.22=R06.14): a line attribute and a column attribute used together belong to the same end of the same node; a column is converted on its own line.'
 EXPLANATION += " R01.14: identifier characters are the interpreter's (worder.is_identifier_char; no home-made isalnum test; no \\b next to the name).  R01.15 (=R15.17): a `:=` target in a comprehension binds in the containing scope.  R01.16 (=R02.21): names in decorators, defaults, annotations and bases are evaluated in the parent scope."
 EXPLANATION += ' R01.13: a `col_offset`/`end_col_offset` of an AST node (UTF-8 bytes) reaches a character offset only through codeanalyze.column_to_offset; it is otherwise only compared, or is the start column of a node tested to be a statement.'
 ASSUMPTIONS = ["scope classes are the subclasses of rope.base.pyscopes.Scope found in the working tree"]
@@ -124,6 +125,9 @@ def check(ctx, res) -> None:
     from .c02 import header_expression_scope_rule
 
     header_expression_scope_rule(ctx, res, "R01.16")
+    from .common import position_pair_rule
+
+    position_pair_rule(ctx, res, "R01.17", ("rope.refactor.occurrences", "rope.refactor.functionutils", "rope.base.evaluate", "rope.refactor.patchedast", "rope.base.codeanalyze"))
     identifier_char_rule(ctx, res, "R01.14", ("rope.refactor.occurrences", "rope.refactor.rename", "rope.base.worder"), occurrences=True)
 
 
